@@ -26,7 +26,11 @@ EXTRA = ["<p>", "</p>", "<div>", "</div>", "<table>", "</table>", "<tr>", "<td>"
          "<!--c-->", "<!DOCTYPE html>", "<!DOCTYPE html PUBLIC \"-//W3C//DTD HTML 4.01 Transitional//EN\">", "<!doctype x>",
          "x", " ", "\n", "\x00", "&amp;", "a b", "<body class=a>", "<html lang=x>", "<svg xlink:href=a viewbox=1>",
          "<math definitionurl=u>", "<mglyph>", "<malignmark>", "<clippath>", "<svg><font face=x>", "<table><input type=hidden>",
-         "<table><form>", "<a><table><a>", "<b><p></b>", "<dialog>", "<menuitem>", "<template>", "<main>", "<details>", "<summary>"]
+         "<table><form>", "<a><table><a>", "<b><p></b>", "<dialog>", "<menuitem>", "<template>", "<main>", "<details>", "<summary>",
+         "</tbody>", "</thead>", "</tfoot>", "<thead>", "<tfoot>", "</caption>", "</colgroup>", "</option>", "</optgroup>", "</li>", "</dd>",
+         "</dt>", "</h2>", "</applet>", "</object>", "</noscript>", "</th>", "<th>", "</ruby>", "</rt>", "<rb>", "<rtc>", "</pre>",
+         "</form>", "</font>", "</nobr>", "<b class=a>", "<b class=b>", "<font size=1>", "<a href=2>", "</frame>", "</textarea>x",
+         "</xmp>", "</iframe>", "</noembed>", "</noframes>", "</plaintext>", "</svg>x", "</mi>", "</desc>", "</foreignObject>"]
 
 
 def markup(rng):
@@ -91,6 +95,16 @@ class C01(Plugin):
             out.append({"markup": m, "fragment": False, "container": "div", "scripting": False, "ns": True})
             out.append({"markup": m, "fragment": True, "container": "div", "scripting": False, "ns": True})
             out.append({"markup": m, "fragment": True, "container": "table", "scripting": True, "ns": False})
+        # every insertion mode x every start/end tag of the dispatch tables (and a few others) x continuations
+        for m in gen_markup.phase_directed(gen_markup.dispatch_keys()):
+            out.append({"markup": m, "fragment": False, "container": "div", "scripting": False, "ns": True})
+        # formatting elements that differ only in attribute values / names (Noah's Ark, adoption agency)
+        for f in ("b", "a", "font", "nobr"):
+            for attrs in (["class=a", "class=b", "class=c", "class=d"], ["class=a"] * 4, ["id=a", "class=a", "id=a", "id=a title=t"],
+                          ["", "", "", ""], ["x=1 y=2", "y=2 x=1", "x=1 y=2", "x=1 y=2"]):
+                m = "<p>" + "".join("<%s %s>" % (f, a) for a in attrs)
+                for tail in ("</p><p>x", "<div>x</%s>y" % f, "</%s></%s>x<p>y" % (f, f), "<table><td>x</table></%s>" % f):
+                    out.append({"markup": m + tail, "fragment": False, "container": "div", "scripting": False, "ns": True})
         return out
 
     def encode(self, case):
